@@ -389,7 +389,7 @@ def run(ctx):
             run_stats[k] += st.get(k, 0) or 0
         for f in aud["failures"][:3]:
             run_stats["audit_failures"] += 1
-            ctx.violation(f"C05:{f['kind']}@run", f"{tag}: {f['what']}",
+            ctx.violation(f"C05:{f['kind']}@run:{job['iso3']}", f"{tag}: {f['what']}",
                           {"kind": "counterexample", "iso3": job["iso3"], "option": job["option"],
                            "prelude": job.get("prelude", []), "failure": f})
         cap = r["capture"]
